@@ -22,6 +22,15 @@ def showSt (s : St) : String :=
 
 def handle (cmd : String) (args : List String) : Option String :=
   match cmd with
+  | "bulke2e" => some (match args.mapM parseLine with
+      | some ls =>
+        let st := SigModel.Bulk.handle ls
+        let items := String.join (st.items.map (fun | .created => "c" | .failed => "f" | .tooLarge => "t"))
+        -- documents are identified by their _vid; lines that are not documents of the generator (id 0) are never searchable
+        let vids := (st.stored.filter (· ≠ 0)).eraseDups
+        let sorted := vids.foldr (fun x acc => let (lo, hi) := acc.partition (· < x); lo ++ [x] ++ hi) []
+        s!"items={items} stored={",".intercalate (sorted.map toString)}"
+      | none => "bad-op")
   | "bulk" => some (match args.mapM parseLine with
       | some ls => showSt (SigModel.Bulk.handle ls)
       | none => "bad-op")
